@@ -24,7 +24,7 @@ Inductive case :=
 
 Definition err_eqb (a b : err) : bool :=
   match a, b with
-  | EAttr, EAttr | EAssert, EAssert | EKey, EKey | EIndex, EIndex | EDiv, EDiv | EFuel, EFuel | ENotImpl, ENotImpl => true
+  | EAttr, EAttr | EAssert, EAssert | EKey, EKey | EIndex, EIndex | EDiv, EDiv | EFuel, EFuel | ENotImpl, ENotImpl | ERuntime, ERuntime => true
   | _, _ => false
   end.
 
